@@ -9,7 +9,7 @@ DEFAULTS = dict(
     p_opt_existing=.15, p_single_opt=.06, p_dup_id=0.0,
     n_incompat=(0, 2), p_incompat=.5,
     p_constraint=0.0, n_conn=(0, 0), p_grp=.3, p_excl=.3, p_conn_cond=.6, p_side_cond=0., p_grp_open=0., max_side=3, max_side_total=5,
-    n_dv=(0, 0), p_dv_cond=.6, p_dv_link=.0, p_dv_dup_label=0., n_metric=(0, 0), p_metric_below_conn=0.,
+    n_dv=(0, 0), p_dv_cond=.6, p_dv_link=.0, p_dv_dup_label=0., p_dv_option=0., n_metric=(0, 0), p_metric_below_conn=0.,
     exotic=False, allow=(), forbid=(),
 )
 
@@ -205,8 +205,20 @@ def _grow(rnd, o):
             d = new('dv', 'D', options=['o%d' % i for i in range(rnd.randint(1, 4))])
         if o['p_dv_dup_label'] > 0 and rnd.random() < o['p_dv_dup_label']:
             [nd for nd in nodes if nd['id'] == d][0]['label'] = 'size%d' % rnd.randint(0, 1)
-        add_edge(rnd.choice(pool), d)
+        if sel and o['p_dv_option'] > 0 and rnd.random() < o['p_dv_option']:
+            # the design-variable node is itself an OPTION of a selection choice (not derived by a generic node)
+            c_ = rnd.choice(sel)
+            c_['options'].append(d)
+        else:
+            add_edge(rnd.choice(pool), d)
         dvs.append(d)
+    if dvs and o['p_dv_option'] > 0 and len(named) > 3 and rnd.random() < .6:
+        # an incompatibility constraint between an option node and a design-variable node
+        opts_ = [x for c in sel for x in c['options'] if x not in dvs]
+        if opts_:
+            pair = [rnd.choice(opts_), rnd.choice(dvs)]
+            if pair not in incompat:
+                incompat.append(pair)
     if len(dvs) >= 2 and rnd.random() < o['p_dv_link']:
         nm = {n['id']: n for n in nodes}
         disc = [d for d in dvs if 'options' in nm[d]]
